@@ -794,11 +794,15 @@ func (r *runningStep) runOnInput() {
 	case loopData, ok := <-r.executeInput:
 		if !ok {
 			r.logger.Debugf("aborted waiting for result in foreach")
+			r.closedEarly(StageIDOutputs, true)
 			return
 		}
 		r.processInput(loopData)
 	case <-r.ctx.Done():
 		r.logger.Debugf("context done")
+		// The step was closed while waiting for its items. Report that, like for the other stages,
+		// so that the step completes and the execute and outputs stages are marked as not happening.
+		r.closedEarly(StageIDOutputs, true)
 		return
 	}
 }
